@@ -49,6 +49,17 @@ class RINGToken(object):
         else:
             return eq(self.name, other)
 
+    # Python 3 ignores __cmp__: without these a token never compares equal
+    # to its name and no reaction rule can be read.
+    def __eq__(self, other):
+        return self.__cmp__(other)
+
+    def __ne__(self, other):
+        return not self.__cmp__(other)
+
+    def __hash__(self):
+        return hash(self.name)
+
     def __str__(self):
         return self.name
 
